@@ -362,3 +362,20 @@ Definition canon (q : query) (r : ranswer) : answer :=
     | _ => APanic
     end
   end.
+
+(* ---- runs: mutations interleaved with queries (GetSnapshot updates the cache) ---- *)
+Inductive pop := PMut (o : op) | PQry (q : query).
+
+Definition plain_pstep (d : option pdb) (p : pop) : option pdb :=
+  match d with
+  | None => None
+  | Some d =>
+    match p with
+    | PMut o => plain_step d o
+    | PQry q => Some (snd (plain_query d q))
+    end
+  end.
+Definition plain_prun (l : list pop) : option pdb := fold_left plain_pstep l (Some pdb_init).
+Definition muts (l : list pop) : list op :=
+  flat_map (fun p => match p with PMut o => [o] | PQry _ => [] end) l.
+Definition plain_observe (d : pdb) (q : query) : answer := canon q (fst (plain_query d q)).
